@@ -169,12 +169,55 @@ def shipped(d: str, which: str, steps: int, lazy: bool = False) -> str:
     return path
 
 
+def grid_init_functions():
+    """initialisation functions for a scenario on the generated 2x3 street grid: OSMRoadNetwork.from_file cannot load under
+    the installed networkx, so the network is built through the constructor by a custom init function placed before the
+    library's default ones (the documented extension point of load_scenario)"""
+    from nrel.hive.initialization.initialize_simulation import default_init_functions
+
+    from .nets import build
+
+    def osm_grid(config, simulation_state, environment):
+        rn = build(("grid", (100, 10, 100, 10, 40, 40, 40), (1, 1, 1, 1, 1, 1.5, 1), ()))
+        return simulation_state._replace(road_network=rn), environment
+
+    return [osm_grid] + list(default_init_functions())
+
+
+def s4(d: str, lazy: bool = False) -> str:
+    """street-grid scenario: vehicles, requests, stations and a base on junctions and mid-street cells of the 2x3 grid"""
+    from .nets import build, link_positions
+
+    rn = build(("grid", (100, 10, 100, 10, 40, 40, 40), (1, 1, 1, 1, 1, 1.5, 1), ()))
+    node = {}
+    for lid, l in rn.link_helper.links.items():
+        node[int(lid.split("-")[0])] = l.start
+    mid01 = link_positions(rn, "0-1", ("middle",))[0].geoid
+    mid34 = link_positions(rn, "3-4", ("middle",))[0].geoid
+    write_global_config(d, log_stats=True, lazy=lazy)
+    vehicles = [
+        {"id": "v1", "cell": node[0], "soc": 0.6}, {"id": "v2", "cell": node[2], "soc": 0.6}, {"id": "v3", "cell": mid01, "soc": 0.012},
+        {"id": "v4", "cell": mid34, "soc": 0.012}, {"id": "v5", "cell": node[5], "soc": 0.6}, {"id": "v6", "cell": node[3], "soc": 0.012},
+    ]
+    stations = [("s0", node[1], "DCFC", 1, True), ("s0", node[1], "LEVEL_2", 1, True), ("s1", node[4], "DCFC", 1, True), ("s1", node[4], "LEVEL_2", 1, True)]
+    reqs = [(f"r{k}", node[k % 6], node[(k * 2 + 3) % 6], 40 + 50 * k, 1) for k in range(10) if node[k % 6] != node[(k * 2 + 3) % 6]]
+    return write_scenario(
+        d, "s4", start=0, end=1800, step=60, cancel=300, vehicles=vehicles, requests=reqs,
+        bases=[("b0", node[3], None, 1)], stations=stations, rate=(1.37, 0.73, 0.5),
+        dispatcher=dict(LOW_DISPATCH, idle_time_out_seconds=180),
+    )
+
+
+INIT_FUNCTIONS = {"S4": grid_init_functions}
+
+
 BUILDERS = {
     "S1": (s1, 25),
     "S2": (s2, 30),
     "S3": (s3, 35),
     # S2 under the other station-search strategy (estimated time to finish charging instead of distance x queue)
     "S2t": (lambda d, lazy=False: s2(d, lazy, search="shortest_time_to_charge", name="s2t"), 30),
+    "S4": (s4, 30),
     "S5": (lambda d, lazy=False: shipped(d, "denver_demo.yaml", 240, lazy), 240),
     "S6": (lambda d, lazy=False: shipped(d, "denver_demo_fleets.yaml", 240, lazy), 240),
 }
